@@ -14,6 +14,10 @@ From Borno Require Import ParserSC_Base.
 From Borno Require Import ParserSound.
 From Borno Require Import ParserComplete.
 From Borno Require Import ParserSC_Paren.
+From Borno Require Import Value.
+From Borno Require Import Eval.
+From Borno Require Import EvalCongr.
+From Borno Require Import ParenEquiv.
 
 (** every expression the parser accepts is ladder-shaped (WFfull: binary operators grouped by level and to the left, assignment to the right, prefix operators above **, suffix chains tightest) and its tokens are exactly the tree written out *)
 Theorem C01_pexpr_sound :
@@ -27,7 +31,7 @@ Print Assumptions C01_pexpr_sound.
 (** the same at every level of the ladder *)
 Theorem C01_plevel_sound :
   forall (eofl : N) (f k : nat) (ts : list token) (e : expr) (r : list token) (ds : list pdiag),
-         k <= nlev ->
+         (k <= nlev)%nat ->
          plevel eofl f (skipn k ladder) ts = POk e r ds ->
          ds = [] /\
          WFk k (erase_e e) /\ (exists pre : list token, ts = pre ++ r /\ Yields (erase_e e) (map sym_of pre)).
@@ -121,3 +125,39 @@ Theorem C01_for_absent_condition :
             tok TBREAK; tok TSEMICOLON] = POk (SFor None (ELit (LitBool true) 0) None (SBreak l)) [] [].
 Proof. exact (@for_absent_condition). Qed.
 Print Assumptions C01_for_absent_condition.
+
+(** ADDING PARENTHESES NEVER CHANGES WHAT A PROGRAM DOES: every expression is observationally equivalent (same value or same error at the same line, same output, input consumption and final store, in both directions; only fuel differs) to the expression with all its parentheses removed - any number of parentheses at any depth *)
+Theorem C01_strip_groups_equiv :
+  forall (libm : N -> f64 -> f64 -> f64) (clock : f64)
+           (sched : N -> list (list N * value) -> list (list N * value)) (e : expr),
+         equiv_e libm clock sched e (strip_groups e).
+Proof. exact (@strip_groups_equiv). Qed.
+Print Assumptions C01_strip_groups_equiv.
+
+(** ...so the fully parenthesised writing of a tree behaves exactly like the tree *)
+Theorem C01_paren_all_equiv :
+  forall (libm : N -> f64 -> f64 -> f64) (clock : f64)
+           (sched : N -> list (list N * value) -> list (list N * value)) (e : expr),
+         equiv_e libm clock sched (paren_all e) e.
+Proof. exact (@paren_all_equiv). Qed.
+Print Assumptions C01_paren_all_equiv.
+
+(** ...and two expressions that differ only in parentheses are interchangeable inside any statement (printed value, condition, declaration, loop part, return; under any nesting of blocks, branches and loop bodies) of any program: same run. (Function bodies are stored in closures, so stores differ there; covered by the correspondence stream) *)
+Theorem C01_same_strip_program :
+  forall (libm : N -> f64 -> f64 -> f64) (clock : f64)
+           (sched : N -> list (list N * value) -> list (list N * value)) (before after : list stmt) 
+           (SK : sctx) (e1 e2 : expr),
+         strip_groups e1 = strip_groups e2 ->
+         equiv_p libm clock sched (before ++ splug_ctx SK e1 :: after) (before ++ splug_ctx SK e2 :: after).
+Proof. exact (@same_strip_program). Qed.
+Print Assumptions C01_same_strip_program.
+
+(** ...instantiated for the fully parenthesised writing *)
+Theorem C01_paren_all_program :
+  forall (libm : N -> f64 -> f64 -> f64) (clock : f64)
+           (sched : N -> list (list N * value) -> list (list N * value)) (before after : list stmt) 
+           (SK : sctx) (e : expr),
+         equiv_p libm clock sched (before ++ splug_ctx SK (paren_all e) :: after)
+           (before ++ splug_ctx SK e :: after).
+Proof. exact (@paren_all_program). Qed.
+Print Assumptions C01_paren_all_program.
